@@ -246,7 +246,7 @@ def diff_kind(exp, got, doc):
 DOCS = None
 
 
-def shard_main(shard, nshards, tier):
+def shard_main(shard, nshards, tier, mode='set'):
     docs = G.docs()
     w = vlib.Worker('xdrv', stderr_path=os.path.join(vlib.BUILD, 'tmp', 'c02.%d.err' % shard))
     nsargs = ['%s=%s' % kv for kv in sorted(G.NSMAP.items())]
@@ -262,8 +262,11 @@ def shard_main(shard, nshards, tier):
     viols = []
     samples = []
     outcomes = set()
+    ORDER_FAMS = ('step1', 'step2', 'abbrev', 'filter', 'union')
     for idx, (fam, text, ast) in enumerate(gen_cases(tier)):
         if idx % nshards != shard:
+            continue
+        if mode == 'order' and fam not in ORDER_FAMS:
             continue
         counts['cases'] += 1
         fam_counts[fam] = fam_counts.get(fam, 0) + 1
@@ -301,6 +304,21 @@ def shard_main(shard, nshards, tier):
                 else:
                     exp = ref_result(ast, X.Ctx(node, ns=G.NSMAP), d)
                 got = norm_got(got_all[ni])
+                if mode == 'order':
+                    # C12: the delivered LIST must be duplicate free and in document order; value differences are C02's
+                    if not (exp.startswith('ns\x1f') and got.startswith('ns\x1f')) or exp != got:
+                        continue
+                    raw = got_all[ni][3:].split()
+                    want = [d.path(n) for n in X.evaluate(ast, X.Ctx(node, ns=G.NSMAP))]
+                    if len(raw) >= 2:
+                        nontriv = True
+                    if raw != want and first_bad is None:
+                        kind = 'nodeset-duplicates' if len(raw) != len(set(raw)) else 'nodeset-order'
+                        first_bad = kind
+                        viols.append(('%s|%s|%s' % (fam, kind, text),
+                                      {'expr': text, 'doc': d.name, 'xml': d.to_xml(), 'context': d.path(node),
+                                       'expected': ' '.join(want), 'got': ' '.join(raw)}))
+                    continue
                 if exp != 'e\x1f' and exp not in ('ns\x1f', 'b\x1f0', 's\x1f'):
                     nontriv = True
                 outcomes.add(exp[:40])
